@@ -46,7 +46,9 @@ TNext == /\ l <= Len(TraceLog)
                                    /\ mexp' = AllFalse /\ outage' = FALSE /\ last' = [op |-> "init"]
                                    /\ UNCHANGED <<sync, txU, txS, txE, before, target, viol>>
             ELSE /\ Apply(e)
+                 \* whatever happened before (a failed synchronisation included), both stores stay usable
                  /\ LET bad == Failed(Guards(e)) \cup (IF e.out.panic THEN {"G_C10_NoPanic"} ELSE {})
+                               \cup (IF e.out.storeError THEN {"G_C15_StoresUsable"} ELSE {})
                     IN viol' = IF bad = {} THEN viol ELSE viol \cup {<<l, e.ev, bad>>}
          /\ l' = l + 1
 TSpec == TInit /\ [][TNext]_<<vars, l, viol>>
